@@ -297,7 +297,7 @@ func runC10(c *RuleCtx) {
 	if f := c.MustFn("R10.4", "(*peerScore).refreshScores"); f != nil {
 		connected := AtomBool("pstats.connected", isFieldOf("peerStats.connected"))
 		expired := AtomBool("now.After(expire)", func(v *V) bool {
-			return v.IsCall("time.Time.After") && v.Args[0].IsCall("time.Now") && v.Args[1].IsField("peerStats.expire")
+			return v.IsCall("time.Time.Before") && v.Args[1].IsCall("time.Now") && v.Args[0].IsField("peerStats.expire")
 		})
 		for _, d := range p.mapDeletes(f) {
 			if !p.R(f).Val(d.Map).IsField("peerScore.peerStats") {
